@@ -79,6 +79,7 @@ type Engine struct {
 	eqHook   func(st *State, a, b Value) (*Term, bool)
 	zeroHooks []func(t types.Type) (Value, bool)
 	Trace    bool
+	NoErrFork bool // opaque results of type error are a single opaque value (no nil/non-nil fork)
 	Observations []string
 	Fallbacks []string
 	fb       map[string]*Solver
@@ -531,6 +532,10 @@ func (st *State) FreshValue(hint string, t types.Type) Value {
 			if st.E.initPhase {
 				return &IfaceV{}
 			}
+			if st.E.NoErrFork {
+				st.E.objCtr++
+				return &IfaceV{T: opaqueDyn, V: &OpaqueV{Name: hint, ID: st.E.objCtr, T: t}}
+			}
 			c := st.FreshTerm(hint+"_fails", SBool, 0)
 			if !st.Branch(c) {
 				return &IfaceV{}
@@ -808,4 +813,90 @@ func (e *Engine) SetGlobalInt(pkgPath, name string, v int) error {
 	o := e.globalObj(g)
 	e.baseMem[o] = e.intTerm(big.NewInt(int64(v)), types.Typ[types.Int])
 	return nil
+}
+
+// RunOnce executes fn on one path (no forking expected) and hands the final
+// state's event trace to inspect. Used by drivers that build their own
+// symbolic arguments.
+func (e *Engine) RunOnce(fn *ssa.Function, mkArgs func(st *State) []Value, inspect func(st *State, ret Value, panicked string)) (reason string) {
+	e.work = nil
+	e.Stats.Paths++
+	st := e.newState(nil)
+	e.Solver.Push()
+	defer e.Solver.Pop()
+	reason = "done"
+	func() {
+		defer func() {
+			if r := recover(); r != nil {
+				switch x := r.(type) {
+				case *pathEnd:
+					reason = x.Reason + ": " + x.Detail
+				case *goPanic:
+					inspect(st, nil, x.Info.Kind+": "+x.Info.Detail)
+				default:
+					panic(r)
+				}
+			}
+		}()
+		args := mkArgs(st)
+		ret := st.callFn(fn, args, nil, nil)
+		inspect(st, ret, "")
+	}()
+	if len(e.work) > 0 {
+		reason = "forked"
+	}
+	return reason
+}
+
+// Events exposes the trace of a state to drivers.
+func (st *State) Events() []Event { return st.events }
+
+// EqValues exposes structural/symbolic equality to drivers.
+func (st *State) EqValues(a, b Value) (t *Term, ok bool) {
+	if ta, isT := a.(TupleV); isT {
+		tb, isT2 := b.(TupleV)
+		if !isT2 || len(ta) != len(tb) {
+			return FalseT, true
+		}
+		var cs []*Term
+		for i := range ta {
+			c, ok := st.EqValues(ta[i], tb[i])
+			if !ok {
+				return nil, false
+			}
+			cs = append(cs, c)
+		}
+		return And(cs...), true
+	}
+	if a == nil && b == nil {
+		return TrueT, true
+	}
+	defer func() {
+		if r := recover(); r != nil {
+			if _, isEnd := r.(*pathEnd); isEnd {
+				t, ok = nil, false
+				return
+			}
+			panic(r)
+		}
+	}()
+	return st.eqValues(a, b), true
+}
+
+// AssertDriver lets a driver discharge an obligation on a state.
+func (st *State) AssertDriver(id string, c *Term) {
+	defer func() {
+		if r := recover(); r != nil {
+			if _, isEnd := r.(*pathEnd); !isEnd {
+				panic(r)
+			}
+		}
+	}()
+	st.Assert(id, c)
+}
+
+// StubFunc makes a function value whose calls are recorded as events
+// "opaque:@stub:<name>" with fresh results.
+func StubFunc(name string, sig *types.Signature) *FuncV {
+	return &FuncV{Native: "@stub:" + name, Sig: sig}
 }
